@@ -41,8 +41,9 @@ L3 == {[k |-> "IntersectionExtension", s |-> {v, W("z")}] : v \in Sample(L2, 11,
       \cup {[k |-> "Equivalence", p |-> {v, SE1(v)}] : v \in Sample(L2, 13, SEED)}
 \* sets with many elements (a hash that only looks at part of a set is fine below that size), intervals that differ by 2^32 / 2^63
 Ws(m) == {W("w" \o ToString(i)) : i \in 1..m}
-Big == {[k |-> kd, s |-> Ws(m)] : kd \in SetKinds, m \in {9, 12, 17, 20, 33, 65}}
-       \cup {[k |-> kd, s |-> Ws(m)] : kd \in {"SetExtension", "Conjunction"}, m \in {48, 129, 257}}
+Big == {[k |-> kd, s |-> Ws(m)] : kd \in SetKinds, m \in {9, 17, 33}} \cup {[k |-> kd, s |-> Ws(m)] : kd \in {"SetIntension", "Disjunction"}, m \in {20, 65}}
+       \cup {[k |-> "SetExtension", s |-> Ws(129)], [k |-> "Conjunction", s |-> Ws(48)]}
+       \cup (IF TIER = "thorough" THEN {[k |-> "SetExtension", s |-> Ws(257)], [k |-> "Conjunction", s |-> Ws(129)]} ELSE {})
        \cup {[k |-> "SetIntension", s |-> {[k |-> "SetExtension", s |-> Ws(34)], W("a")}],
              [k |-> "Similarity", p |-> {[k |-> "IntersectionIntension", s |-> Ws(40)], [k |-> "Disjunction", s |-> Ws(33)]}]}
        \cup {[k |-> "Similarity", p |-> {[k |-> "SetExtension", s |-> Ws(9)], [k |-> "Conjunction", s |-> Ws(10)]}],
@@ -54,7 +55,9 @@ EqU == L1 \cup L2 \cup L3 \cup Big \cup IntU
 \* near misses: different canonical form, as close as possible
 SetSwap(kd) == CASE kd = "SetExtension" -> "SetIntension" [] kd = "SetIntension" -> "SetExtension" [] kd = "Conjunction" -> "Disjunction"
                  [] kd = "Disjunction" -> "ConjunctionParallel" [] kd = "IntersectionExtension" -> "IntersectionIntension" [] OTHER -> "Conjunction"
-Near(v) ==
+\* structural near misses of ANY term: inside a double negation, as the only component of a compound
+Wraps(v) == {[k |-> "Negation", a |-> [k |-> "Negation", a |-> v]], [k |-> "Conjunction", s |-> {v}], [k |-> "Product", q |-> <<v>>]}
+Near0(v) ==
   CASE v.k \in SetKinds -> {[v EXCEPT !.s = @ \cup {W("q")}], [v EXCEPT !.k = SetSwap(@)]}
                             \* one element replaced by a term that FEEDS THE SAME HASH INPUT (Hash writes no constructor tag):
                             \* the same name under another atom kind, and the element wrapped in a negation
@@ -69,6 +72,7 @@ Near(v) ==
     [] v.k \in AsymBinKinds -> {[v EXCEPT !.a = v.b, !.b = v.a], [v EXCEPT !.k = IF @ = "Inheritance" THEN "Implication" ELSE "Inheritance"]}
     [] v.k = "Interval" -> {iv \in Ints : iv # v}                                \* same low 32 bits, different value
     [] OTHER -> {}
+Near(v) == Wraps(v) \cup Near0(v)
 
 Init == \/ mode = "design" /\ x \in BTerms(DEPTH - 1) /\ y = 0
         \/ mode = "seed" /\ x \in 1..SEEDS /\ y = 0
